@@ -29,7 +29,7 @@ vars == <<l, pst, pcin, hd, pend, relc, par>>
 NoOp == [op |-> "none"]
 InitState == /\ pst = [x \in Promises |-> "unres"]
              /\ pcin = [x \in Promises |-> 0]
-             /\ hd = [h \in Handles |-> [p |-> "none", path |-> ""]]
+             /\ hd = [h \in Handles |-> [p |-> "none", path |-> "", pre |-> FALSE]]
              /\ pend = [t \in Threads |-> NoOp]
              /\ relc = {}          \* promises on which ReleaseClients has been called
              /\ par = [x \in Promises |-> "none"]    \* the promise x was joined onto (while that one was unresolved)
@@ -53,7 +53,7 @@ Consume == l' = l + 1
 
 Reset == /\ Ev("reset") /\ Consume
          /\ pst' = [x \in Promises |-> "unres"] /\ pcin' = [x \in Promises |-> 0]
-         /\ hd' = [h \in Handles |-> [p |-> "none", path |-> ""]] /\ pend' = [t \in Threads |-> NoOp] /\ relc' = {}
+         /\ hd' = [h \in Handles |-> [p |-> "none", path |-> "", pre |-> FALSE]] /\ pend' = [t \in Threads |-> NoOp] /\ relc' = {}
          /\ par' = [x \in Promises |-> "none"]
 
 Start == /\ Ev("start") /\ Consume
@@ -71,17 +71,20 @@ Lin(t) ==
                                     ![t].result = IF Dest(o.p, o.path) = "err:null" THEN "err" ELSE Dest(o.p, o.path)]
             /\ UNCHANGED <<pst, hd>>
        [] o.op = "Client" ->
-            /\ hd' = [hd EXCEPT ![o.h] = [p |-> o.p, path |-> o.path]]
+            \* pre: the handle is a pipelined client made before resolution (kept in the promise's client table); a
+            \* handle asked for after resolution is the capability of the result itself and is not the promise's to release
+            /\ hd' = [hd EXCEPT ![o.h] = [p |-> o.p, path |-> o.path, pre |-> ~Resolved(o.p)]]
             /\ pend' = [pend EXCEPT ![t].lin = TRUE,
                            ![t].result = IF pst[Rep(o.p)] = "nocap" /\ o.path = "f0" THEN "nil" ELSE "client"]
             /\ UNCHANGED pst
        [] o.op = "CCall" ->
             /\ hd[o.h].p # "none"
-            /\ \/ pend' = [pend EXCEPT ![t].lin = TRUE, ![t].dest = Dest(hd[o.h].p, hd[o.h].path),
+            /\ \/ /\ ~(hd[o.h].pre /\ Comp(hd[o.h].p) \subseteq relc)      \* "are released by ReleaseClients": not usable afterwards
+                  /\ pend' = [pend EXCEPT ![t].lin = TRUE, ![t].dest = Dest(hd[o.h].p, hd[o.h].path),
                                        ![t].result = IF Dest(hd[o.h].p, hd[o.h].path) = "err:null" THEN "err" ELSE Dest(hd[o.h].p, hd[o.h].path)]
                \* the client is borrowed from the promise: once ReleaseClients was called on every promise that shares its
                \* outcome the client is released and calls fail
-               \/ /\ Comp(hd[o.h].p) \subseteq relc
+               \/ /\ hd[o.h].pre /\ Comp(hd[o.h].p) \subseteq relc
                   /\ pend' = [pend EXCEPT ![t].lin = TRUE, ![t].dest = "err", ![t].result = "err"]
             /\ UNCHANGED <<pst, hd>>
        [] o.op \in {"Fulfill", "Reject"} ->
